@@ -254,6 +254,204 @@ func negativeScenario(pre int) vs.Scenario {
 	}
 }
 
+// sibling: the counter stays positive; several waiters, each with its own
+// context; only waiter 0's context is cancelled. At quiescence waiter 0 has
+// returned and every other waiter (live context, positive counter) has not.
+// Then the last Done releases them all.
+func siblingScenario(k int, via string) vs.Scenario {
+	return func() (func(), func(*vs.End) (string, string)) {
+		wg := &fun.WaitGroup{}
+		returned := make([]bool, k)
+		atQuiet := make([]bool, k)
+		quiet := false
+		body := func() {
+			wg.Add(1)
+			fin := make(chan struct{}, k)
+			cancels := make([]context.CancelFunc, k)
+			for i := 0; i < k; i++ {
+				i := i
+				ctx, cancel := context.WithCancel(context.Background())
+				cancels[i] = cancel
+				go func() {
+					switch via {
+					case "worker":
+						_ = wg.Worker()(ctx)
+					case "operation":
+						wg.Operation()(ctx)
+					default:
+						wg.Wait(ctx)
+					}
+					returned[i] = true
+					vs.Progress()
+					fin <- struct{}{}
+				}()
+			}
+			cancels[0]()
+			vs.Quiesce()
+			copy(atQuiet, returned)
+			quiet = true
+			wg.Done()
+			for i := 0; i < k; i++ {
+				<-fin
+			}
+			for _, c := range cancels {
+				c()
+			}
+		}
+		check := func(e *vs.End) (string, string) {
+			if quiet {
+				if !atQuiet[0] {
+					return "cancelled-waiter-still-blocked", "waiter 0 did not return although its context was cancelled"
+				}
+				for i := 1; i < k; i++ {
+					if atQuiet[i] {
+						return "wait-returned-early/live-context", fmt.Sprintf("waiter %d returned with counter 1 and a live context after a sibling's context was cancelled", i)
+					}
+				}
+			}
+			if t, d := stuckTag(e); t != "" {
+				return t, d
+			}
+			return "", ""
+		}
+		return body, check
+	}
+}
+
+// account: with `pre` operations outstanding, Launch / DoTimes / Operation.Add
+// / StartGroup / Processor.Add called for n goroutines (n may be zero or
+// negative: nothing starts) change the counter by exactly the number of
+// goroutines they start: at quiescence Num() == pre and max(n,0) operations
+// ran; a Wait started before the call does not return before the pre-existing
+// work is done.
+func accountScenario(kind string, pre, n int) vs.Scenario {
+	return func() (func(), func(*vs.End) (string, string)) {
+		wg := &fun.WaitGroup{}
+		finished, numAtQuiet := 0, -1
+		waiterAtQuiet, waiterDone := false, false
+		var perr any
+		body := func() {
+			ctx := context.Background()
+			wg.Add(pre)
+			fin := make(chan struct{}, 1)
+			if pre > 0 {
+				go func() { wg.Wait(ctx); waiterDone = true; fin <- struct{}{} }()
+			}
+			op := fun.Operation(func(context.Context) { vs.Yield(); finished++ })
+			func() {
+				defer func() { perr = recover() }()
+				switch kind {
+				case "dotimes":
+					wg.DoTimes(ctx, n, op)
+				case "startgroup":
+					op.StartGroup(ctx, wg, n)
+				case "launch":
+					for i := 0; i < n; i++ {
+						wg.Launch(ctx, op)
+					}
+				case "opadd":
+					for i := 0; i < n; i++ {
+						op.Add(ctx, wg)
+					}
+				case "procadd":
+					pf := fun.Processor[int](func(context.Context, int) error { vs.Yield(); finished++; return nil })
+					for i := 0; i < n; i++ {
+						pf.Add(ctx, wg, func(error) {}, i)
+					}
+				}
+			}()
+			vs.Quiesce()
+			numAtQuiet = wg.Num()
+			waiterAtQuiet = waiterDone
+			if numAtQuiet >= pre {
+				wg.Add(-pre)
+			}
+			wg.Wait(ctx)
+			if pre > 0 {
+				<-fin
+			}
+		}
+		check := func(e *vs.End) (string, string) {
+			where := fmt.Sprintf("%s pre=%d n=%d", kind, pre, n)
+			if perr != nil {
+				return "account/panic", where + fmt.Sprintf(": %v", perr)
+			}
+			started := n
+			if started < 0 {
+				started = 0
+			}
+			if numAtQuiet >= 0 {
+				if numAtQuiet != pre {
+					return "account/counter-not-restored", where + fmt.Sprintf(": %d goroutines started and finished, Num()=%d want %d", started, numAtQuiet, pre)
+				}
+				if finished != started {
+					return "account/started-mismatch", where + fmt.Sprintf(": %d operations ran, want %d", finished, started)
+				}
+				if waiterAtQuiet {
+					return "wait-returned-early", where + ": a Wait returned although the pre-existing work is not done"
+				}
+			}
+			if t, d := stuckTag(e); t != "" {
+				return t, where + ": " + d
+			}
+			return "", ""
+		}
+		return body, check
+	}
+}
+
+// observers: Num / IsDone agree with the completed Add/Done calls while other
+// threads wait.
+func observerScenario() vs.Scenario {
+	return func() (func(), func(*vs.End) (string, string)) {
+		wg := &fun.WaitGroup{}
+		type obs struct {
+			t, num int
+			done   bool
+		}
+		var seen []obs
+		var addRet, doneCall, doneRet int
+		body := func() {
+			ctx := context.Background()
+			fin := make(chan struct{}, 3)
+			wg.Add(1)
+			addRet = vs.Now()
+			go func() { wg.Wait(ctx); fin <- struct{}{} }()
+			go func() {
+				n := wg.Num()
+				d := wg.IsDone()
+				seen = append(seen, obs{vs.Now(), n, d})
+				fin <- struct{}{}
+			}()
+			go func() { doneCall = vs.Now(); wg.Done(); doneRet = vs.Now(); fin <- struct{}{} }()
+			for i := 0; i < 3; i++ {
+				<-fin
+			}
+			seen = append(seen, obs{vs.Now(), wg.Num(), wg.IsDone()})
+		}
+		check := func(e *vs.End) (string, string) {
+			if t, d := stuckTag(e); t != "" {
+				return t, d
+			}
+			for _, o := range seen {
+				if o.num < 0 || o.num > 1 {
+					return "observer/num-out-of-range", fmt.Sprint(o)
+				}
+				if o.t < doneCall && (o.num != 1 || o.done) {
+					return "observer/wrong-before-done", fmt.Sprint(o)
+				}
+			}
+			last := seen[len(seen)-1]
+			if last.num != 0 || !last.done {
+				return "observer/wrong-after-done", fmt.Sprint(last)
+			}
+			_, _ = addRet, doneRet
+			return "", ""
+		}
+		return body, check
+	}
+}
+
 func build(tier string) ([]runner.Instance, time.Duration) {
 	b := 3
 	budget := 60 * time.Second
@@ -279,6 +477,28 @@ func build(tier string) ([]runner.Instance, time.Duration) {
 			add("launch", fmt.Sprintf("launch/%s,n=%d", kind, n), b, launchScenario(kind, n))
 		}
 	}
+	for k := 2; k <= maxK+1; k++ {
+		for _, via := range []string{"wait", "worker", "operation"} {
+			if via != "wait" && k > 2 {
+				continue
+			}
+			add("sibling", fmt.Sprintf("sibling/k=%d,%s", k, via), b-1, siblingScenario(k, via))
+		}
+	}
+	for _, kind := range []string{"dotimes", "startgroup", "launch", "opadd", "procadd"} {
+		for pre := 0; pre <= 2; pre++ {
+			for n := -2; n <= 2; n++ {
+				if n < 0 && kind != "dotimes" && kind != "startgroup" {
+					continue
+				}
+				if n == 2 && pre == 2 && tier != "thorough" {
+					continue
+				}
+				add("account", fmt.Sprintf("account/%s,pre=%d,n=%d", kind, pre, n), 2, accountScenario(kind, pre, n))
+			}
+		}
+	}
+	add("observer", "observer", b, observerScenario())
 	for pre := 0; pre <= 1; pre++ {
 		add("negative", fmt.Sprintf("negative/pre=%d", pre), b, negativeScenario(pre))
 	}
